@@ -64,7 +64,10 @@ Definition cs_opposite (cs : char_search) : char_search :=
 
 (* ---------- input ---------- *)
 
-Inductive inchar := Ch (c : N) | Bad.       (* Bad: bytes that are not UTF-8 *)
+Inductive inchar :=
+| Ch (c : N)
+| Bad                       (* bytes that are not UTF-8 *)
+| Print (m : str).          (* not input: a message handed to an ExternalPrinter while the read waits here *)
 Record istream := mkIn { in_cur : list inchar; in_rest : list (list inchar) }.
 
 Inductive rerr := EEof | EInvalidData | EInterrupted | EValidator | EHangup.
@@ -212,24 +215,47 @@ Section Editor.
   (* ---------- reader (tty/unix.rs PosixRawReader) ---------- *)
 
   (* next_char: skips to the next chunk when the current one is exhausted *)
+  (* characters: messages lying in the stream are stepped over (a raw read inside a key sequence does not
+     look at the message pipe) *)
+  Fixpoint take_in_chunk (ch : list inchar) : option (inchar * list inchar) :=
+    match ch with
+    | [] => None
+    | Print _ :: t => take_in_chunk t
+    | c :: t => Some (c, t)
+    end.
   Fixpoint take_first (rest : list (list inchar)) : option (inchar * istream) :=
     match rest with
     | [] => None
-    | ch :: rest' => match ch with
-                     | c :: t => Some (c, mkIn t rest')
-                     | [] => take_first rest'
+    | ch :: rest' => match take_in_chunk ch with
+                     | Some (c, t) => Some (c, mkIn t rest')
+                     | None => take_first rest'
                      end
     end.
   Definition take_char (cur : list inchar) (rest : list (list inchar)) : option (inchar * istream) :=
-    match cur with
-    | c :: t => Some (c, mkIn t rest)
-    | [] => take_first rest
+    match take_in_chunk cur with
+    | Some (c, t) => Some (c, mkIn t rest)
+    | None => take_first rest
+    end.
+  (* the message, if any, that is next in the stream (what select() reports before the next key) *)
+  Fixpoint peek_first (rest : list (list inchar)) : option (str * istream) :=
+    match rest with
+    | [] => None
+    | [] :: rest' => peek_first rest'
+    | (Print m :: t) :: rest' => Some (m, mkIn t rest')
+    | _ => None
+    end.
+  Definition peek_print (i : istream) : option (str * istream) :=
+    match in_cur i with
+    | Print m :: t => Some (m, mkIn t (in_rest i))
+    | [] => peek_first (in_rest i)
+    | _ => None
     end.
   Definition next_char : E N :=
     fun s => match take_char (in_cur (e_inp s)) (in_rest (e_inp s)) with
              | None => EErr EHangup s
              | Some (Bad, i) => match set_inp i s with EOk _ s' => EErr EInvalidData s' | _ => EPanic end
              | Some (Ch c, i) => match set_inp i s with EOk _ s' => EOk c s' | _ => EPanic end
+             | Some (Print _, _) => EPanic        (* take_char never returns a message *)
              end.
 
   (* poll(timeout): buffered input, else wait: forever (None) or not at all (0) *)
@@ -1479,6 +1505,31 @@ Section Editor.
       edo mark <- changes_begin;
       isearch_loop fuel (buf (e_line s), pos (e_line s)) mark [] (hlen_e s - 1) Reverse true.
 
+  (* ---------- messages from other threads (State::external_print) ---------- *)
+
+  Definition ends_with_lf_str (m : str) : bool := ends_with_lf m.
+  Definition external_print (m : str) : E unit :=
+    edo s <- eget;
+    write (clear_old_rows (e_layout s)) ;;;
+    (let lay := e_layout s in
+     set_layout (mkLay (l_prompt_size lay) (l_default_prompt lay)
+                       (mkP (p_col (l_cursor lay)) 0) (mkP (p_col (l_end lay)) 0))) ;;;
+    write m ;;;
+    (if ends_with_lf_str m then eret tt else write [10%N]) ;;;
+    refresh_line.
+
+  (* the main loop waits in select(): messages that arrived are shown before the next key is read *)
+  Fixpoint drain_prints (fuel : nat) : E unit :=
+    match fuel with
+    | 0 => eret tt
+    | S f =>
+      edo s <- eget;
+      match peek_print (e_inp s) with
+      | Some (m, i) => set_inp i ;;; external_print m ;;; drain_prints f
+      | None => eret tt
+      end
+    end.
+
   (* ---------- the main loop (lib.rs readline_edit) ---------- *)
 
   Inductive outcome := OLine (s : str) | OEof | OInterrupted | OInvalidData | OValidatorError | OHangup
@@ -1488,6 +1539,8 @@ Section Editor.
     match fuel with
     | 0 => efuel
     | S f =>
+      edo s00 <- eget;
+      drain_prints (S (stream_size (e_inp s00))) ;;;
       edo c0 <- next_cmd f false;
       (if should_reset_kill_ring c0 then (edo s <- eget; set_kr (kr_reset (e_kr s))) else eret tt) ;;;
       edo oc <- (match c0 with
